@@ -130,6 +130,9 @@ func (v val) toHostVariant(pick int) *variants.Variant {
 	var host interface{}
 	switch v.K {
 	case "null":
+		if pick%3 == 1 {
+			return new(variants.Variant) // the zero value of the type is a Null variant like any other
+		}
 		host = nil
 	case "int":
 		switch {
